@@ -513,6 +513,171 @@ def run_probe(pr):
     return obs
 
 
+# ---------------------------------------------------------------- C05 strengthening 2: tasks that END or RAISE next to survivors
+def run_alongside(pr):
+    """Survivor routines on SystemClock / TempoClocks record the logical time of every resumption while short routines and
+    functions on AppClock (and on every other clock) end or raise at staggered instants."""
+    if MODE == 'nrt':
+        main.reset()
+    lock = main._main_lock
+    clocks = []
+    with lock:
+        for t in pr['tempos']:
+            clocks.append(TempoClock(num(t)))
+
+    def ck(c):
+        return SystemClock if c == 'S' else AppClock if c == 'A' else clocks[c[1]]
+    obs = {'survivors': [[] for _ in pr['survivors']], 'enders_ran': 0, 'done': 0}
+
+    def survivor(i, spec):
+        def body(inval):
+            _, clock = inval
+            for _k in range(spec['n']):
+                obs['survivors'][i].append([fr(main.current_tt._seconds), fr(clock.beats)])
+                yield num(spec['delta'])
+            obs['survivors'][i].append([fr(main.current_tt._seconds), fr(clock.beats)])
+            obs['done'] += 1
+        return body
+
+    class Boom(Exception):
+        pass
+
+    def ender(spec):
+        kind = spec['kind']
+        if kind.startswith('routine'):
+            def body(inval):
+                yield num(spec['delay'])
+                obs['enders_ran'] += 1
+                if kind == 'routine_raise':
+                    raise Boom('script')
+                # routine_end: falls off the end -> StopStream inside the clock
+            return ('r', body)
+
+        def f():
+            obs['enders_ran'] += 1
+            if kind == 'func_raise':
+                raise Boom('script')
+            return None
+        return ('f', f)
+
+    def top():
+        for i, spec in enumerate(pr['survivors']):
+            Routine(survivor(i, spec)).play(ck(spec['clock']), 0)
+        for spec in pr['enders']:
+            tag, obj = ender(spec)
+            if tag == 'r':
+                Routine(obj).play(ck(spec['clock']), 0)
+            else:
+                ck(spec['clock']).sched(num(spec['delay']), obj)
+
+    def root(inval):
+        yield num(pr['start'])
+        top()
+    with lock:
+        Routine(root).play(SystemClock)
+    if MODE == 'nrt':
+        main.process(0)
+    else:
+        deadline = time.time() + 8.0
+        while time.time() < deadline:
+            with lock:
+                if obs['done'] >= len(pr['survivors']):
+                    break
+            time.sleep(0.01)
+        time.sleep(0.02)
+        with lock:
+            SystemClock.clear()
+            AppClock.clear()
+        for c in clocks:
+            c.stop()
+    obs['completed'] = obs['done'] >= len(pr['survivors'])
+    return obs
+
+
+# ---------------------------------------------------------------- C07 strengthening 2: oversized bundles (clumped sends)
+def run_clump(pr):
+    """An oversized bundle sent through send_clumped_bundles / BundleNetAddr / sync(elements); pieces as they reach the
+    low-level send (RT) or the score (NRT)."""
+    from sc3.base.netaddr import BundleNetAddr
+    from sc3.base.stream import Condition
+    if MODE == 'nrt':
+        main.reset()
+    lock = main._main_lock
+    addr = NetAddr('127.0.0.1', 57110)
+    elements = [['/m', i, 'x' * pr['blob']] for i in range(pr['nmsg'])]
+    lat = lat_of(pr['lat'])
+    obs = {'done': False, 'pieces': [], 'error': None}
+    captured = []
+    if MODE == 'rt':
+        main._osc_interface._send = lambda msg, target: captured.append(bytes(msg.dgram))
+        obs['osc_offset'] = str(SystemClock._elapsed_osc_offset)
+
+    def ids_of(tree):
+        out = []
+        if tree[0] == 'm':
+            if tree[1] == '/m':
+                out.append(int(tree[2][0]))
+        else:
+            for e in tree[2]:
+                out.extend(ids_of(e))
+        return out
+
+    def do_send():
+        score = main._osc_interface._osc_score if MODE == 'nrt' else None
+        c0 = max(x[1] for x in score._scoreq._queue) if score else None
+        obs['T'] = fr(main.current_tt._m_seconds)
+        try:
+            route = pr['route']
+            if route == 'clumped':
+                addr.send_clumped_bundles(lat, *elements)
+            elif route == 'bundlenetaddr':
+                with BundleNetAddr(addr) as b:          # no server: the collected bundle goes out with latency None
+                    for e in elements:
+                        b.send_msg(*e)
+            elif route == 'bundlenetaddr_server':
+                class Stub:
+                    pass
+                st = Stub()
+                st.addr, st.latency, st._addr = addr, lat, addr
+                with BundleNetAddr(st) as b:
+                    for e in elements:
+                        b.send_msg(*e)
+            elif route == 'sync':
+                for _ in addr.sync(Condition(), lat, elements):   # driven by hand: no server answers
+                    pass
+        except Exception as e:
+            obs['error'] = repr(e)
+        if MODE == 'nrt':
+            ents = sorted((x for x in score._scoreq._queue if x[1] > c0), key=lambda x: x[1])
+            for prio, cnt, entry in ents:
+                wire = parse_packet(bytes(entry.msg[4:]))
+                obs['pieces'].append({'time': fr(entry.bndl[0]), 'tag': str(wire[1]), 'ids': ids_of(wire)})
+        else:
+            for d in captured:
+                wire = parse_packet(d)
+                obs['pieces'].append({'tag': str(wire[1]), 'ids': ids_of(wire)})
+        obs['done'] = True
+
+    if pr['inside']:
+        def body(inval):
+            yield num(pr['start'])
+            do_send()
+        with lock:
+            Routine(body).play(SystemClock)
+        if MODE == 'nrt':
+            main.process(0)
+        else:
+            deadline = time.time() + 6.0
+            while time.time() < deadline and not obs['done']:
+                time.sleep(0.01)
+    else:
+        with lock:
+            do_send()
+            if MODE == 'rt':
+                obs['T'] = None       # outside routines every piece reads the physical clock anew
+    return obs
+
+
 def main_():
     payload = json.load(open(sys.argv[1]))
     out = []
@@ -531,8 +696,16 @@ def main_():
         except Exception as e:
             import traceback
             pout.append({'fatal': '%r\n%s' % (e, traceback.format_exc())})
+    aout, cout = [], []
+    for key, fn_, acc in (('alongside', run_alongside, aout), ('clumps', run_clump, cout)):
+        for pr in payload.get(key, []):
+            try:
+                acc.append(fn_(pr))
+            except Exception as e:
+                import traceback
+                acc.append({'fatal': '%r\n%s' % (e, traceback.format_exc())})
     with open(sys.argv[2], 'w') as f:
-        json.dump({'out': out, 'probes_out': pout}, f)
+        json.dump({'out': out, 'probes_out': pout, 'alongside_out': aout, 'clumps_out': cout}, f)
     global _burn
     _burn = False
 
